@@ -323,7 +323,7 @@ Section Open.
         | Some (key, v, rest) =>
           if key =? P_AUTH then mkO (ORefused 2 5) 1
           else if key =? P_CAPS then oplus (caps_f (length v) v) (params_f ext k rest)
-          else mkO (ORefused 2 0) 1
+          else mkO (ORefused 2 UNKNOWN_PARAM_SUB) 1    (* 'Unknow OPEN parameter' *)
         end
       end
     end.
